@@ -28,6 +28,10 @@ RS_ID = {"json": 1, "msgpack": 2, "cbor": 3, "ubjson": 4}
 SWEEP_QUICK = 4096
 
 
+class Opaque:
+    """An application object no WAMP serializer knows."""
+
+
 def mode_for(index, tier):
     n = 65536 if tier == "thorough" else SWEEP_QUICK
     if index < 2 * n:
@@ -179,8 +183,11 @@ class World(StackWorld):
             # WebSocket has no announcement: each side enforces its own limit when sending and receiving
             self.limit["C"] = cm or None
             self.limit["S"] = sm or None
-        c, s = self.build_stack(kind, lambda: cs, lambda: ss, [make_ser(ser, cfg["batched"])], [make_ser(ser, cfg["batched"])],
-                                copts, sopts)
+        # (a factory usually knows several serializers; here: the batched one first, its un-batched twin second)
+        twins = cfg["twins"] = bool(cfg["batched"]) and ch.flag("factory-also-knows-the-unbatched-twin", 0.6)
+        sers = lambda: [make_ser(ser, cfg["batched"])] + ([make_ser(ser, False)] if twins else [])  # noqa
+        c, s = self.build_stack(kind, lambda: cs, lambda: ss, sers(), sers(), copts, sopts)
+        self.unserializable = []
         self.plan = {"C": self.make_messages("C"), "S": self.make_messages("S")}
         self.sent_ok = {"C": [], "S": []}
         self.cursor = {"C": 0, "S": 0}
@@ -242,6 +249,11 @@ class World(StackWorld):
                 lambda: M.Yield(rid, args=args or None, kwargs=kwargs),
                 lambda: M.EventReceived(rid),
             ][t]()
+            if ch.flag("unserializable-payload", 0.1):
+                # the application passes an object no serializer knows: that one send fails, the transport and its
+                # serializer go on unharmed
+                msg = M.Publish(rid, "com.ex.topic", args=[Opaque()], kwargs=kwargs)
+                self.unserializable.append(msg)
             out.append(msg)
         return out
 
@@ -440,6 +452,16 @@ class World(StackWorld):
         self.cursor[who] += 1
         e = self.client if who == "C" else self.server
         w0 = len(e.written)
+        if any(msg is u for u in self.unserializable):
+            try:
+                self.fw.call(self, sess._transport.send, msg)
+            except Exception as ex:  # noqa
+                self.run.probe("unserializable-message-refused:%s" % type(ex).__name__)
+                if len(e.written) != w0:
+                    self.run.violate("C13.intact-in-order", "refused-send-wrote-octets:unserializable", "")
+            else:
+                self.run.violate("C13.intact-in-order", "unserializable-message-accepted:%s" % self.cfg["kind"], "")
+            return
         size = len(make_ser(self.cfg["ser"], self.cfg["batched"]).serialize(msg)[0])
         lim = self.limit[who]
         try:
